@@ -75,6 +75,8 @@ def parseAction (s : String) : Option Action :=
   | ["CTL", c] => do pure (.chTlNext (← c.toNat?))
   | ["ERR", k] => do pure (.failNext (← k.toNat?))
   | ["K", c] => do pure (.known (← c.toNat?))
+  | ["ps", a, b, ids] => do pure (.pushSeq (← a.toNat?) (← b.toNat?) (← (ids.splitOn ",").mapM String.toNat?))
+  | ["es", n] => do pure (.emitSeq (← n.toNat?))
   | ["X", k, ids] => do pure (.extra (← k.toNat?) (← (ids.splitOn ",").mapM String.toNat?))
   | _ => none
 
@@ -90,6 +92,7 @@ def showEvent : Event → String
   | .apiDiff p q => s!"A:diff({p},{q})"
   | .apiChDiff c p => s!"A:chdiff{c}({p})"
   | .apiRestore p q => s!"A:restore({p},{q})"
+  | .storeSeq v => s!"S:seq={v}"
   | .tooLong => "L"
   | .chTooLong c => s!"L:c{c}"
 
@@ -105,6 +108,7 @@ def parseEvent (s : String) : Option Event :=
   else if let some r := dropPrefix s "D:" then do pure (.dispatch (← (r.splitOn ",").mapM String.toNat?))
   else if let some r := dropPrefix s "S:pts=" then do pure (.storePts (← r.toInt?))
   else if let some r := dropPrefix s "S:qts=" then do pure (.storeQts (← r.toInt?))
+  else if let some r := dropPrefix s "S:seq=" then do pure (.storeSeq (← r.toInt?))
   else if let some r := dropPrefix s "S:state=" then
     match r.splitOn "," with
     | [p, q] => do pure (.storeState (← p.toInt?) (← q.toInt?))
